@@ -163,7 +163,10 @@ def plain_rows(draw, max_rows=4, min_rows=0):
 @st.composite
 def append_case(draw):
     pkg = draw(tagged_pkg(0, 3, names=NAMES_NO_AUTO, allow_big=False))
-    mode = draw(st.sampled_from(['iterable', 'generator', 'two_iterables', 'sources', 'load_tuple', 'rename']))
+    mode = draw(st.sampled_from(['iterable', 'generator', 'two_iterables', 'sources', 'sources_flow', 'load_tuple', 'rename']))
+    if mode == 'sources_flow':
+        # upstream resources carry the automatic names, so the names of the appended ones can collide
+        pkg = draw(tagged_pkg(0, 3, names=['res_1', 'res_2', 'res_3', 'res_4', 'a'], allow_big=False))
     case = {'op': 'append', 'mode': mode, 'pkg': pkg}
     if mode == 'rename':
         if not pkg:
@@ -180,7 +183,7 @@ def append_case(draw):
         case['sub'] = sub
         case['sel'] = selector_for(names, idxs, draw)
         return case
-    k = 2 if mode in ('two_iterables', 'sources') else 1
+    k = 2 if mode in ('two_iterables', 'sources', 'sources_flow') else 1
     case['new'] = []
     for _ in range(k):
         flds, rows = draw(plain_rows())
@@ -285,7 +288,10 @@ def check(case, ctx):
             snames = [r['name'] for r in sub]
             idxs = select(case['sel'], snames)
             sdesc = gen.descriptor_of(sub)
-            its = [iter(copy.deepcopy(r['rows'])) for r in sub]
+            if case.get('seq'):
+                its = (rw.it for rw in feed(sdesc, gen.tables_of(sub), sequential=True).res_iter)
+            else:
+                its = [iter(copy.deepcopy(r['rows'])) for r in sub]
             steps = [dataflows.load((sdesc, its), resources=copy.deepcopy(case['sel']))]
             exp_names = names + [snames[i] for i in idxs]
             exp_rows = tables + [sub[i]['rows'] for i in idxs]
@@ -297,11 +303,13 @@ def check(case, ctx):
                 steps = [(r for r in copy.deepcopy(new[0]['rows']))]
             elif mode == 'two_iterables':
                 steps = [copy.deepcopy(new[0]['rows']), (r for r in copy.deepcopy(new[1]['rows']))]
+            elif mode == 'sources_flow':
+                steps = [dataflows.sources(Flow(copy.deepcopy(new[0]['rows']), (r for r in copy.deepcopy(new[1]['rows']))))]
             else:
                 steps = [dataflows.sources(copy.deepcopy(new[0]['rows']), (r for r in copy.deepcopy(new[1]['rows'])))]
             exp_names = names + ['res_%d' % (len(names) + 1 + k) for k in range(len(new))]
-            if mode == 'sources':
-                exp_names = names + ['res_1', 'res_1'][:len(new)]  # each source is its own sub-flow; names not asserted
+            if mode in ('sources', 'sources_flow'):
+                exp_names = names + ['?', '?'][:len(new)]  # each source is its own sub-flow; only uniqueness is asserted
             exp_rows = tables + [n['rows'] for n in new]
     try:
         with quiet():
@@ -317,7 +325,9 @@ def check(case, ctx):
     got_names = [r['name'] for r in out_desc['resources']]
     if len(out_rows) != len(got_names):
         raise Violation('%s:streams-vs-descriptors' % op, {'streams': len(out_rows), 'descriptors': got_names})
-    if not (op == 'append' and case['mode'] == 'sources'):
+    if len(set(got_names)) != len(got_names):
+        raise Violation('%s:duplicate-resource-names' % op, {'got': got_names})
+    if not (op == 'append' and case['mode'] in ('sources', 'sources_flow')):
         if got_names != exp_names:
             raise Violation('%s:resource-names-or-order' % op, {'got': got_names, 'expected': exp_names})
     elif got_names[:len(names)] != names or len(got_names) != len(exp_names):
@@ -332,7 +342,7 @@ def check(case, ctx):
     # descriptors of untouched resources are identical; duplicate's copy is a renamed deep copy
     in_by_name = {r['name']: r for r in passthrough_desc(desc)['resources']}
     for i, r in enumerate(out_desc['resources']):
-        if r['name'] in in_by_name and not (op == 'append' and case['mode'] == 'sources' and i >= len(names)):
+        if r['name'] in in_by_name and not (op == 'append' and case['mode'] in ('sources', 'sources_flow') and i >= len(names)):
             if op == 'concat' and r['name'] == (case['target'] or {}).get('name', 'concat'):
                 continue
             if r != in_by_name[r['name']]:
